@@ -49,8 +49,8 @@ def check(chk, repo):
         for e in w.events:
             if e.kind == "call" and e.name == "remove" and e.value and e.value[0] == "hremove":
                 h = e.value[1]
-                guard = ("not", ("call", ("attr", h, "is_empty"), (), ()))
-                rep.ev("CLIENT-nonempty", e, any(g == guard and pol for g, pol in e.guards),
+                from ..schema import nonempty_guard
+                rep.ev("CLIENT-nonempty", e, any(nonempty_guard(g, pol, h) for g, pol in e.guards),
                        "H.remove() is not dominated by `not H.is_empty()`")
     chk.floor("distinct H.update call sites in the models", sites, 5)
     chk.undecided.append("extremal-element / exactly-once semantics over all operation histories")
